@@ -110,6 +110,8 @@ def probes(core, spans, anchors):
     left = "" if a_begin else "XX "
     right = "" if a_end else " XX"
     out = [left + core + right]
+    # the text at the very start / very end of the line (nothing around it), and alone on the line
+    out += [core + right, left + core, core]
     for (s, e) in spans:
         for i in range(s, e):
             c = core[i]
@@ -122,7 +124,7 @@ def probes(core, spans, anchors):
     if a_end:
         out.append(left + core + " XX")
     seen, uniq = set(), []
-    for p in out[:48]:
+    for p in out[:51]:
         if p not in seen:
             seen.add(p)
             uniq.append(p)
@@ -390,17 +392,17 @@ def cli_conformance(st, sym):
             st.validated += 1
         st.outcomes["cli-grep"] += 1
         # the matching line at every position of a longer file (first, middle, last): grep must find it there too
-        for pos in range(3):
+        for pos, (hit, final_nl) in itertools.product(range(3), ((lines[0], True), (core, True), (core, False))):
             other = ["XX nothing here XX", "XX still nothing XX"]
-            body = other[:pos] + [lines[0]] + other[pos:]
+            body = other[:pos] + [hit] + other[pos:]
             with open("probe.txt", "w", encoding="utf-8", newline="") as fh:
-                fh.write("\n".join(body) + "\n")
+                fh.write("\n".join(body) + ("\n" if final_nl else ""))
             o = world.cli("grep", "--", pat, "probe.txt") if pat.startswith("-") else world.cli("grep", pat, "probe.txt")
             st.evaluations += 1
-            st.observe((sym, ctx, "pos", pos, o.exit, o.crashed))
-            want = refrx.search(lines[0])
+            st.observe((sym, ctx, "pos", pos, hit == core, final_nl, o.exit, o.crashed))
+            want = refrx.search(hit)
             if want and (o.exit != 0 or o.crashed) and not fails_alone_as_literal(sym):
-                where = ("first", "middle", "last")[pos]
+                where = ("first", "middle", "last")[pos] + ("" if hit != core else ":text-fills-the-line") + ("" if final_nl else ":no-final-newline")
                 st.violation(f"C07:grep-misses-matching-line:on-{where}-line-of-a-longer-file", {"syms": [sym], "ctx": ctx, "cli": "grep", "position": pos},
                              {"kind": "grep-position", "pattern": pat, "file": body, "exit": o.exit, "crashed": o.crashed})
             elif want:
@@ -411,25 +413,40 @@ def cli_conformance(st, sym):
         os.chdir("/")
         return  # a leading ^ is an anchor: covered by the library-level contexts
     fpat = sym + "{version}"
-    refrx = re.compile(re.escape(text) + r"[0-9]+\.[0-9]+\.[0-9]+")
-    lines = ["XX " + text + "1.2.3 XX"] + ["XX " + c + "1.2.3 XX" for c in ("q", "7", "/") if c != text] + ["XX 1.2.3 XX"]
-    want_lines = []
-    for line in lines:
-        m = refrx.search(line)
-        want_lines.append(line[: m.start()] + text + "1.2.4" + line[m.end() :] if m else line)
-    body = "\n".join(lines) + "\n"
-    want = "\n".join(want_lines) + "\n"
+    gpat = "{version}" + sym
+    V = r"[0-9]+\.[0-9]+\.[0-9]+"
+    frx = re.compile(re.escape(text) + V)
+    grx = re.compile(V + ("$" if sym == "$" else re.escape(text)))
+    gtext = "" if sym == "$" else text
+    flines = ["XX " + text + "1.2.3 XX"] + ["XX " + c + "1.2.3 XX" for c in ("q", "7", "/") if c != text] + ["XX 1.2.3 XX"]
+    flines += [text + "1.2.3 XX", "XX " + text + "1.2.3", text + "1.2.3"]  # at the very start / end of a line, alone on a line
+    glines = ["YY 1.2.3" + gtext + " YY"] + ["YY 1.2.3" + c + " YY" for c in ("q", "7", "/") if c != gtext] + ["YY 1.2.3 YY"]
+    glines += ["1.2.3" + gtext + " YY", "YY 1.2.3" + gtext, "1.2.3" + gtext]
+    if sym == "$":
+        glines = ["YY 1.2.3", "YY 1.2.3 YY", "1.2.3", "YY 1.2.3$ YY"]
+
+    def wanted(lines, rx, before, after_):
+        out = []
+        for line in lines:
+            m = rx.search(line)
+            out.append(line[: m.start()] + before + "1.2.4" + after_ + line[m.end() :] if m else line)
+        return out
+
+    fbody, fwant = "\n".join(flines), "\n".join(wanted(flines, frx, text, ""))  # no final newline: the last line ends the file
+    gbody, gwant = "\n".join(glines) + "\n", "\n".join(wanted(glines, grx, "", gtext)) + "\n"
     cfg = (
         "[bumpver]\ncurrent_version = \"1.2.3\"\nversion_pattern = \"MAJOR.MINOR.PATCH\"\n\n"
         "[bumpver.file_patterns]\n\"bumpver.toml\" = ['current_version = \"{version}\"']\n"
         f"\"f.txt\" = [{_toml_str(fpat)}]\n"
+        f"\"g.txt\" = [{_toml_str(gpat)}]\n"
     )
     world.clear_dir(".")
-    world.write_tree({"bumpver.toml": cfg.encode(), "f.txt": body.encode()})
+    world.write_tree({"bumpver.toml": cfg.encode(), "f.txt": fbody.encode(), "g.txt": gbody.encode()})
     import toml as _toml
 
     try:
-        ok_cfg = _toml.loads(cfg)["bumpver"]["file_patterns"]["f.txt"] == [fpat]
+        fps = _toml.loads(cfg)["bumpver"]["file_patterns"]
+        ok_cfg = fps["f.txt"] == [fpat] and fps["g.txt"] == [gpat]
     except Exception:
         ok_cfg = False
     if not ok_cfg:
@@ -439,12 +456,15 @@ def cli_conformance(st, sym):
         return
     o = world.cli("update", "--patch", "--no-fetch")
     st.evaluations += 1
-    after = world.read_tree(".").get("f.txt", b"").decode()
-    st.observe((sym, "update", o.exit, o.crashed, after))
-    if o.exit != 0 or after != want:
+    tree = world.read_tree(".")
+    after, gafter = tree.get("f.txt", b"").decode(), tree.get("g.txt", b"").decode()
+    st.observe((sym, "update", o.exit, o.crashed, after, gafter))
+    if o.exit != 0 or after != fwant or gafter != gwant:
+        which = "f.txt" if (o.exit != 0 or after != fwant) else "g.txt"
         st.violation(
-            _cli_sig(sym, "pre"), {"syms": [sym], "ctx": "update", "cli": "update"},
-            {"kind": "update", "file_pattern": fpat, "exit": o.exit, "crashed": o.crashed, "after": after, "expected": want, "log": o.log[-3:]},
+            _cli_sig(sym, "pre" if which == "f.txt" else "suf"), {"syms": [sym], "ctx": "update", "cli": "update"},
+            {"kind": "update", "file_patterns": [fpat, gpat], "exit": o.exit, "crashed": o.crashed, "f.txt": after, "f.txt expected": fwant,
+             "g.txt": gafter, "g.txt expected": gwant, "log": o.log[-3:]},
         )
     else:
         st.validated += 1
